@@ -15,6 +15,10 @@ Definition blen (l : bytes) : Z := Z.of_nat (length l).
 Definition take (n : Z) (l : bytes) : bytes := firstn (Z.to_nat n) l.
 Definition drop (n : Z) (l : bytes) : bytes := skipn (Z.to_nat n) l.
 Definition zeros (n : Z) : bytes := repeat 0 (Z.to_nat n).
+(* `length l < n`, computed by looking at no more than n elements (shorter_spec in PlProofs:
+   shorter l n = (blen l <? n)); keeps the evaluation of the model linear on long inputs *)
+Definition shorter (l : bytes) (n : Z) : bool :=
+  (0 <? n) && match skipn (Z.to_nat (n - 1)) l with [] => true | _ :: _ => false end.
 Definition byte_ok (b : Z) : Prop := 0 <= b <= 255.
 Definition bytes_ok (l : bytes) : Prop := Forall byte_ok l.
 Definition byte_okb (b : Z) : bool := (0 <=? b) && (b <=? 255).
@@ -55,11 +59,11 @@ Definition run {A} (m : rdr A) (v : bytes) : res A :=
 
 (* read_bytes(length): `if self.pos + length > self.buffer.len() { NotEnoughData }` *)
 Definition r_bytes (ned n : Z) : rdr bytes :=
-  fun '(pos, rest) => if blen rest <? n then Err ned else Ok (take n rest, (pos + n, drop n rest)).
+  fun '(pos, rest) => if shorter rest n then Err ned else Ok (take n rest, (pos + n, drop n rest)).
 (* seek_padding(alignment): ((pos + mask) & !mask) - pos bytes are skipped *)
 Definition r_align (ned a : Z) : rdr unit :=
   fun '(pos, rest) => let k := (- pos) mod a in
-    if blen rest <? k then Err ned else Ok (tt, (pos + k, drop k rest)).
+    if shorter rest k then Err ned else Ok (tt, (pos + k, drop k rest)).
 Definition r_u8 (ned : Z) : rdr Z :=
   fun '(pos, rest) => match rest with [] => Err ned | b :: t => Ok (b, (pos + 1, t)) end.
 Definition r_uint (ned : Z) (be : bool) (n : Z) : rdr Z :=
@@ -169,7 +173,7 @@ Definition pl_next (be : bool) (d : bytes) : pstep :=
   | b0 :: b1 :: b2 :: b3 :: rest =>
       let pid := wrap_i16 (int_val be [b0; b1]) in
       let len := int_val be [b2; b3] in
-      if (pid =? 1) || (blen rest <? len) then PEnd (* sentinel, or position+length+4 > data.len() *)
+      if (pid =? 1) || shorter rest len then PEnd   (* sentinel, or position+length+4 > data.len() *)
       else PItem pid (take len rest) (drop len rest)
   | _ => PErr E_NED                                (* i16 / u16 cdr_deserialize: NotEnoughData *)
   end.
